@@ -313,3 +313,43 @@ Example C13_heap_satisfiable :
   c_cache (hd cempty (c_kids (snd (get ex_J cempty 3%N)))) = [] /\
   hrun ex_J ex_lJ [] [OGet 3%N; OAsDict; OVol; OGet 2%N] = prun ex_J [OGet 3%N; OAsDict; OVol; OGet 2%N].
 Proof. split; [exact ex_reg|]. vm_compute. auto. Qed.
+
+(* ---------------------------------------------------------------- round 3: change_constants / overwrite on the heap *)
+Require Import QV.C13.HeapCC QV.C13.ProofsHeapCC.
+
+(* change_constants on the heap (`hcc`: objects returned as `self` keep id and fields, new objects get fresh ids and
+   initialised fields, a shared sub-object that changes is rebuilt once per joint-scope entry): the new graph is consistent
+   with an extended registry, the store stays valid, the structure is the rebuilt scope, the warning flag is right *)
+Theorem C13_heap_change : forall nc s G l st nx, reg_ok G s l -> sok G st -> gb nx G ->
+  let r := hcc s l st nx nc in
+  exists G', gext G G' /\ reg_ok G' (hc_scope r) (hc_lab r) /\ sok G' (hc_st r) /\ gb (hc_next r) G' /\
+             hc_scope r = rebuild s nc /\ hc_warned r = changes_non_volatile s nc /\
+             (hc_same r = true -> rebuild s nc = s).
+Proof. intros nc s G l st nx Hr Hc Hb. exact (hcc_ok nc s G l st nx Hr Hc Hb). Qed.
+Print Assumptions C13_heap_change.
+
+(* FULL HISTORIES ON THE HEAP: lookups, views, volatile queries, ==, change_constants and overwrite in any order, on
+   object graphs with shared objects: the observations are those of the cache-free paths and of the tree model *)
+Theorem C13_heap_histories : forall G s l st nx ops, reg_ok G s l -> sok G st -> gb nx G ->
+  hrun_full (s, l, st, nx) ops = prun s ops /\ hrun_full (s, l, st, nx) ops = run (s, cempty) ops.
+Proof.
+  intros G s l st nx ops Hr Hc Hb.
+  pose proof (hrun_full_ok ops G (s, l, st, nx) (conj Hr (conj Hc Hb))) as E. cbn [fst] in E.
+  split; [exact E|]. rewrite E. symmetry. apply run_fresh.
+Qed.
+Print Assumptions C13_heap_histories.
+
+(* non-vacuity: the shared graph above with counter 4; changing the volatile constant p0 of the shared DictScope rebuilds
+   S once per entry (ids 4/5, 6/7, 8/9 below the new T = 10, joint 11); changing nothing keeps the three entries on S *)
+Example C13_heap_histories_satisfiable :
+  reg_ok ex_G ex_J ex_lJ /\ sok ex_G [] /\ gb 4 ex_G /\
+  hc_lab (hcc ex_J ex_lJ [] 4 [(0%N, 9#1)]) =
+    L 11 [L 5 [L 4 []]; L 7 [L 6 []]; L 10 [L 9 [L 8 []]]] /\
+  hc_lab (hcc ex_J ex_lJ [] 4 [(7%N, 9#1)]) = L 4 [ex_lS; ex_lS; L 3 [ex_lS]] /\
+  hrun_full (ex_J, ex_lJ, [], 4%N) [OGet 3%N; OVol; OChange [(0%N, 9#1)]; OAsDict; OOverwrite [(0%N, 0#1)]; OVol; OGet 3%N]
+  = prun ex_J [OGet 3%N; OVol; OChange [(0%N, 9#1)]; OAsDict; OOverwrite [(0%N, 0#1)]; OVol; OGet 3%N].
+Proof.
+  split; [exact ex_reg|]. split; [apply sok_empty|]. split.
+  - apply gb_forallb. reflexivity.
+  - vm_compute. auto.
+Qed.
